@@ -400,6 +400,7 @@ class Interface:
     attrs = {}
     attr_raises = {}
     methods = {}
+    computed = {}          # {name: fn(interp, obj) -> value}: attributes that are functions of the object
     invariant = None
     truthy = True
 
@@ -561,6 +562,12 @@ class Registry:
                 v = ty.make(interp, '%s.%s' % (o._pv_uid, name)) if isinstance(ty, Ty) else ty
             o._pv_attrs[name] = v
             return v
+        comp = _iface_lookup(iface, 'computed', name)
+        if comp is not None:
+            # an attribute that is a function of the object: computed on first access, then cached
+            v = comp(interp, o)
+            o._pv_attrs[name] = v
+            return v
         m = _iface_lookup(iface, 'methods', name)
         if m is not None:
             return OpaqueMethod(o, name, m)
@@ -576,7 +583,8 @@ class Registry:
 
     def opaque_has(self, interp, o, name):
         iface = o._pv_iface
-        return _iface_lookup(iface, 'attrs', name) is not None or _iface_lookup(iface, 'methods', name) is not None
+        return _iface_lookup(iface, 'attrs', name) is not None or _iface_lookup(iface, 'methods', name) is not None \
+            or _iface_lookup(iface, 'computed', name) is not None
 
     def opaque_type(self, interp, o):
         return o._pv_cls
